@@ -415,16 +415,19 @@ impl<'a, W: Write> Writer<'a, W> {
             return Ok(num_bytes);
         }
 
-        self.codec.compress(&mut self.buffer)?;
+        // Compress a copy of the block: if writing it fails, the pending values have to stay
+        // as they are, so that a later flush still writes them (and not a twice compressed block)
+        let mut stream = self.buffer.clone();
+        self.codec.compress(&mut stream)?;
 
         let num_values = self.num_values;
-        let stream_len = self.buffer.len();
+        let stream_len = stream.len();
 
         num_bytes += self.append_raw(&num_values.try_into()?, &Schema::Long)?
             + self.append_raw(&stream_len.try_into()?, &Schema::Long)?
             + {
                 self.writer
-                    .write_all(self.buffer.as_ref())
+                    .write_all(stream.as_ref())
                     .map_err(Details::WriteBytes)?;
                 stream_len
             }
